@@ -125,6 +125,13 @@ class FirstPossibleRng:
                 return it
         raise ValueError("no element of positive probability")
 
+    # a pick computed from a uniform draw (inverse-CDF sampling): the smallest draw selects the first option of positive probability
+    def random(self, size=None):
+        return 0.0
+
+    def uniform(self, low=0.0, high=1.0, size=None):
+        return low
+
 
 def generate_member(g, mol, ns, skel, first=None):
     """a molecule of the ensemble with ns[b] units in block b, built by the real generator with scripted draws"""
